@@ -12,7 +12,7 @@ namespace Zeno.Report
 
 /-- all C13 fixes applied (the coalescing mode is free) -/
 def Cfg.Fixed (c : Cfg) : Prop :=
-  c.d3 = true ∧ c.d15 = true ∧ c.d4 = true ∧ c.subq = true ∧ c.subqStats = true
+  c.d3 = true ∧ c.d15 = true ∧ c.d4 = true ∧ c.subq = true ∧ c.subqStats = true ∧ c.recover = true
 
 def Inv (env : Env) (p : Plan) : Prop :=
   ∀ {σ : Type} (s : Sink σ) (st : σ) (now : Nat), (iterate env p s st now).told = false →
@@ -114,12 +114,16 @@ theorem table_inv (env : Env) (hfix : env.cfg.Fixed) (t : Table) : Inv env (.tab
   intro σ s st now h
   refine ⟨t.rows, rfl, ?_⟩
   simp only [iterate, tableIterate] at h ⊢
-  generalize hcs : coalescedScan env t (wrap (oomStep t.oomAt) s) (1, st) now = cs at h ⊢
-  obtain ⟨⟨i, st1⟩, d, e⟩ := cs
+  have hrec : env.cfg.recover = true := hfix.2.2.2.2.2
+  rw [hrec] at h ⊢
+  generalize hcs : coalescedScan env t (wrap (recoverStep true) (wrap (oomStep t.oomAt) s)) ((), 1, st) now = cs at h ⊢
+  obtain ⟨⟨u, i, st1⟩, d, e⟩ := cs
   simp only at h ⊢
   have he : e = none := (Res.told_false _ h).1
   have hp := coalesced_polite env hfix t _ _ _ _ _ _ hcs he
-  have := wrap_polite (oomStep_ok t.oomAt) s 1 st i st1 t.rows trivial hp
+  have h1 := wrap_polite recoverStep_ok (wrap (oomStep t.oomAt) s) () (1, st) u (i, st1) t.rows trivial hp
+  rw [id_spec] at h1
+  have := wrap_polite (oomStep_ok t.oomAt) s 1 st i st1 t.rows trivial h1
   rwa [id_spec] at this
 
 /-- statistics of a table scan: partial exactly when there is an error -/
@@ -127,7 +131,7 @@ theorem table_stats (env : Env) (t : Table) {σ : Type} (s : Sink σ) (st : σ) 
     ∃ e, (iterate env (.table t) s st now).err = e ∧
       (iterate env (.table t) s st now).stats = some { total := 1, successful := if e.isNone then 1 else 0, missing := [] } := by
   simp only [iterate, tableIterate]
-  generalize coalescedScan env t (wrap (oomStep t.oomAt) s) (1, st) now = cs
+  generalize coalescedScan env t (wrap (recoverStep env.cfg.recover) (wrap (oomStep t.oomAt) s)) ((), 1, st) now = cs
   obtain ⟨x, d, e⟩ := cs
   exact ⟨e, rfl, rfl⟩
 
@@ -312,7 +316,7 @@ theorem Out_exists : ∀ (p : Plan), p.wf → ∃ l, Out p l
 theorem subq_inv (env : Env) (hfix : env.cfg.Fixed) (sub p : Plan) (dimOf : Row → Nat) (keep : List Nat → Row → Bool)
     (hws : sub.wf) (ihs : Inv env sub) (ihp : Inv env p) : Inv env (.subqFilter sub dimOf keep p) := by
   intro σ s st now h
-  obtain ⟨_, _, _, hsq, hss⟩ := hfix
+  obtain ⟨_, _, _, hsq, hss, _⟩ := hfix
   simp only [iterate, hsq, hss, Bool.true_and] at h ⊢
   -- what the subquery run returns when it reports no error
   have hsub : ∀ t, ((fun t => ((iterate env sub (dimSink dimOf) [] t).st, (iterate env sub (dimSink dimOf) [] t).took,
